@@ -96,12 +96,20 @@ def _field_annotation(P: Project, rel: str, cls: str, field: str) -> str | None:
     return None
 
 
+def _is_body_text(fn: FuncInfo, expr: ast.expr) -> bool:
+    """expr denotes decoded body text (arbitrary Unicode), as opposed to header / status-line data (latin-1)."""
+    return any(".decode(" in t or t.endswith(".text") for t in canon(fn, expr))
+
+
 def _classify_part(P: Project, fn: FuncInfo, expr: ast.expr, closures: dict[str, FuncInfo]) -> tuple[str, str]:
     """('encoded'|'safe'|'raw'|'unknown', reason) for one interpolated expression of a hand-built YAML fragment."""
     text = _role_text(fn, expr)
     if isinstance(expr, ast.Call):
         la = last_attr(expr)
         if la in ENCODERS:
+            if la == "dumps" and expr.args and _is_body_text(fn, expr.args[0]):
+                return "raw", ("json.dumps of decoded body text: characters above U+FFFF are written as UTF-16 surrogate escapes (\\ud83d\\ude00), "
+                               "which is not a YAML escape - libyaml rejects the cassette and the pure-Python loader returns lone surrogates")
             return "encoded", la or ""
         if isinstance(expr.func, ast.Name) and expr.func.id in closures:
             return "closure", expr.func.id
@@ -199,7 +207,12 @@ def r1_yaml_flow(chk: Check) -> None:
         for c in body_calls(owner):
             if last_attr(c) == "write" and c.args and not isinstance(c.args[0], (ast.JoinedStr, ast.Constant)):
                 n_parts += 1
-                chk.violation("C16.R1", owner, f"write({unparse(c.args[0], 60)})", "a dynamic value is written to the stream without encoding", owner.loc(c))
+                a0 = c.args[0]
+                kind, why = _classify_part(P, owner, a0, closures)
+                if kind == "encoded":
+                    chk.ok("C16.R1", owner, f"write({unparse(a0, 60)})", why, owner.loc(c))
+                else:
+                    chk.violation("C16.R1", owner, f"write({unparse(a0, 60)})", why or "a dynamic value is written to the stream without encoding", owner.loc(c))
     if n_parts < 25:
         chk.undecided("C16.R1", "<discovery>", f"parts={n_parts}", "fewer interpolated parts than confirmed by hand")
     # the encoder itself: escapes `"` and `\\` and non-printables, wraps in double quotes
